@@ -61,8 +61,8 @@ CFG = dict(
     ],
     residue=[
         "index lists, vertex counts, panics: the loop nests, loop bounds, integer assignments, appends and guards of UVSphere, UVSphereUnwelded, Hemisphere.UV, Circle.ToMesh and Cylinder.ToMesh (side strip; order and conditions of the two cap Appends) are REGENERATED from the Go source on every run (go/facts c18.loops -> Gen/PrimLoops.lean, a program of Model/LoopIR.lean) and the model's index lists / vertex counts / admissibility are PROVED equal to the interpretation of the extracted program for all parameters (*_indices_from_source, guards_from_source, cylinder_caps_from_source, uvSphereUnwelded_copy_map_from_source); what stays trusted/corresponded there: the extractor and the IR semantics (Go int modelled in N: on admissible parameters no extracted subtraction goes below 0; float64 modelled by the abstract Scalar operations, integer-valued constants as casts of naturals, decimal constants as num/den; statements that write no tracked slice, integer, float or vector used by a pushed vertex are skipped; an untranslatable float expression that reaches a vertex is refused), Mesh.Append's index shift (mesh.go) and NewTriangleMesh/SetFloat3Data wiring; on top of that the exact correspondence with the running constructors for every (rows, cols), sides <= 24 and sampled up to 512 remains",
-        "vertex POSITION / NORMAL expressions: those of UVSphere, Hemisphere.UV, Circle.ToMesh and the side of Cylinder.ToMesh are REGENERATED (float/vector statements of the loop programs, Gen/PrimLoops.lean) and the model's uvSpherePos, uvSphereNormal, hemispherePos, circlePos/circleNormal, cylinderPos/cylinderNormal (side) are PROVED equal to their interpretation for all parameters and EVERY scalar type (syntactic equality: holds at the reals of the geometric theorems and at the Float the driver runs); the unwelded sphere's positions follow from the proved copy map. Still hand-transcribed and only compared at Float: how Cylinder.ToMesh assembles the caps (Translate vectors, the rotation FromTheta(pi,(1,0,0)); the Append order/conditions are extracted) and the whole six-quad box construction of Cube.UnweldedQuads (quad corner order, dimensions, angles, axes, translations) in Model/SolidsCode.lean, and the welded box's positions beyond the extracted sign table",
-        "vertex-manifoldness: one umbrella per (merged) vertex is now a THEOREM for every primitive at all sizes (uvSphere_oneUmbrella, hemisphere_oneUmbrella, uvSphereUnwelded_oneUmbrella_mod_merge, cylinder_oneUmbrella_mod_merge with explicitly exhibited link cycles; boxes via the executable checker, proved sound: umbrella_checker_sound); connectedness is a theorem for the boxes and the welded UV sphere (uvSphere_connected, all sizes) — for hemisphere / unwelded sphere / cylinder it is not stated separately (it follows from the sphere's by the flip / merge identities for the first two; for the cylinder it is only evaluated by the oracle c18.holds.manifold on the implementation's meshes, every size <= 24 and the moderate samples)",
+        "vertex POSITION / NORMAL expressions: those of UVSphere, Hemisphere.UV, Circle.ToMesh and the side of Cylinder.ToMesh are REGENERATED (float/vector statements of the loop programs, Gen/PrimLoops.lean) and the model's uvSpherePos, uvSphereNormal, hemispherePos, circlePos/circleNormal, cylinderPos/cylinderNormal (side) are PROVED equal to their interpretation for all parameters and EVERY scalar type (syntactic equality: holds at the reals of the geometric theorems and at the Float the driver runs); the unwelded sphere's positions follow from the proved copy map. The cylinder's cap placement (Translate vectors, the FromTheta(pi,(1,0,0)) rotation of positions and normals, Append order/conditions) and the whole six-quad box construction (per face: Quad dimensions, rotation angle and axis through the structurally checked helper rotate, translation, Append order; Quad.ToMesh's four positions and normals) are REGENERATED too (go/facts c18.assembly -> Gen/PrimAssembly.lean) and Model/SolidsCode.lean's cylinderPosCode/cylinderNormalCode/cubeQuadsPosCode/cubeQuadsNormalCode are PROVED equal to their interpretation with the regenerated quaternion code, for every scalar (cubeQuads_construction_from_source, cylinder_assembly_from_source). What remains trusted there: the extractors, the interpretation Model/SolidsAssembly.lean (Translate = Add per vertex, RotateAttribute3DTransformer = Quaternion.Rotate per vector: mesh.go / meshops, not extracted), Go's exact constant folding of math.Pi*(3./2.) vs one Float multiplication (compared with 1e-14), and the welded box's positions beyond the extracted sign table",
+        "vertex-manifoldness: one umbrella per (merged) vertex is now a THEOREM for every primitive at all sizes (uvSphere_oneUmbrella, hemisphere_oneUmbrella, uvSphereUnwelded_oneUmbrella_mod_merge, cylinder_oneUmbrella_mod_merge with explicitly exhibited link cycles; boxes via the executable checker, proved sound: umbrella_checker_sound); connectedness is a theorem for every primitive too (boxes by decide; uvSphere_connected, hemisphere_connected, uvSphereUnwelded_connected_mod_merge, cylinder_connected_mod_merge at all sizes); the oracle c18.holds.manifold additionally evaluates VertexManifold and Connected on the implementation's meshes",
         "outward = positive signed volume of every face against an interior point (star-shapedness); embeddedness is not stated separately; Closed is edge-manifoldness with consistent orientation",
         "hemisphere normals are not covered: the property's normal clause names sphere, box, cylinder. Note: Hemisphere{Radius:r}.UV(rows, cols) with ANY admissible parameters supplies positions.Normalized() as normals and vertex 0 is the origin, so its normal is (NaN, NaN, NaN) (reachable through the public constructor and HemisphereNode; excluded from C18 by the wording, documented in notes/C18.md); the unwelded sphere supplies no normals",
         "cylinder with fewer than 3 sides and a cap panics in Circle.ToMesh (fix fc0d720): corresponded via Solids.cylinderAdmissible; degenerate pipes (no caps) are corresponded (indices, vertex count) but are not solids and carry no oracle",
@@ -70,7 +70,7 @@ CFG = dict(
     assumptions=["float64 arithmetic in Go on amd64 is IEEE-754 without FMA contraction",
                  "lengths (radius, height, box dimensions) in [0.01, 100]: the absolute tolerances and the 1e-9*size coincidence rule are calibrated for this range"],
     manifest=dict(
-        text="Lean 4 theorems, for ALL admissible parameters (no size bound), about a model of modeling/primitives whose index lists, vertex counts, panics, the unwelded sphere's copy map and the vertex position / normal formulas (sphere, hemisphere, circle, cylinder side; for every scalar type) are proved equal to the interpretation of loop programs regenerated from sphere.go, hemisphere.go, circle.go, cylinder.go on every run (an edited loop bound, index expression, angle formula or pole position breaks a named theorem at build); every vertex of every primitive has exactly one umbrella (explicit link cycles, all sizes): the index buffers of the UV sphere (welded; unwelded modulo its copy map), hemisphere (cap fan + dome), capped cylinder (modulo seam/cap-rim merge map) are closed consistently oriented surfaces (directed edges pairwise distinct, closed under reversal, no loops; proved via explicit twin blocks and omega on the loop indices), the welded box by decide on the cubeVertIndices table regenerated from cube.go on every run and the six-quad box modulo its corner table, which is itself proved from a model of the code's construction (six quads rotated by quaternion.FromTheta(k*pi/2, axis) through the regenerated Quaternion.Rotate, then translated; likewise the cylinder's bottom cap rotated by pi about X); the merge maps are proved to identify exactly the vertices whose real positions coincide; over the reals every face has positive signed volume against an interior point (sphere: det = r^3 sin(phi) sin(pi/rows) sin(2pi/cols)), supplied normals of sphere, box and cylinder have positive dot product with every incident face normal, and the enclosed volumes have closed forms (box w*h*d; cylinder (S/2) sin(2pi/S) r^2 H; sphere (C r^3/3) sin(2pi/C)(1+cos(pi/R)); hemisphere likewise) bounded above by the analytic volume with explicit O(1/R^2+1/C^2) deficit. Tied to the code on every run: index lists, vertex counts and panics compared exactly with the Go constructors for every (rows, cols), sides <= 24 and sampled up to 512 with and without cap/UV options; positions and normals at Float; the merge maps against the implementation's geometry; and the theorems' predicates (closed modulo merge, outward, volume, normals outward) evaluated on the implementation's own meshes.",
-        note="Trusted: Lean kernel; propext/Classical.choice/Quot.sound; facts extractor c18.cube; translator (Gen/Transform quaternion code); harness and position-class computation; sort-based closedness check above 1200 edges (cross-checked below); sin/cos tolerance. Not proved: the cap assembly of the cylinder and the six-quad box construction = code (hand transcription in Model/SolidsCode.lean, corresponded at Float; all other vertex position/normal formulas are regenerated and proved), connectedness of the cylinder (oracle), IEEE rounding (the merge maps are proved exact over the reals and validated numerically on the implementation's floats), hemisphere normals (not in the property; vertex-0 normal is NaN).",
+        text="Lean 4 theorems, for ALL admissible parameters (no size bound), about a model of modeling/primitives whose index lists, vertex counts, panics, the unwelded sphere's copy map and the vertex position / normal formulas (sphere, hemisphere, circle, cylinder side and cap placement, six-quad box construction; for every scalar type) are proved equal to the interpretation of loop programs regenerated from sphere.go, hemisphere.go, circle.go, cylinder.go on every run (an edited loop bound, index expression, angle formula or pole position breaks a named theorem at build); every vertex of every primitive has exactly one umbrella (explicit link cycles, all sizes): the index buffers of the UV sphere (welded; unwelded modulo its copy map), hemisphere (cap fan + dome), capped cylinder (modulo seam/cap-rim merge map) are closed consistently oriented surfaces (directed edges pairwise distinct, closed under reversal, no loops; proved via explicit twin blocks and omega on the loop indices), the welded box by decide on the cubeVertIndices table regenerated from cube.go on every run and the six-quad box modulo its corner table, which is itself proved from a model of the code's construction (six quads rotated by quaternion.FromTheta(k*pi/2, axis) through the regenerated Quaternion.Rotate, then translated; likewise the cylinder's bottom cap rotated by pi about X); the merge maps are proved to identify exactly the vertices whose real positions coincide; over the reals every face has positive signed volume against an interior point (sphere: det = r^3 sin(phi) sin(pi/rows) sin(2pi/cols)), supplied normals of sphere, box and cylinder have positive dot product with every incident face normal, and the enclosed volumes have closed forms (box w*h*d; cylinder (S/2) sin(2pi/S) r^2 H; sphere (C r^3/3) sin(2pi/C)(1+cos(pi/R)); hemisphere likewise) bounded above by the analytic volume with explicit O(1/R^2+1/C^2) deficit. Tied to the code on every run: index lists, vertex counts and panics compared exactly with the Go constructors for every (rows, cols), sides <= 24 and sampled up to 512 with and without cap/UV options; positions and normals at Float; the merge maps against the implementation's geometry; and the theorems' predicates (closed modulo merge, outward, volume, normals outward) evaluated on the implementation's own meshes.",
+        note="Trusted: Lean kernel; propext/Classical.choice/Quot.sound; facts extractor c18.cube; translator (Gen/Transform quaternion code); harness and position-class computation; sort-based closedness check above 1200 edges (cross-checked below); sin/cos tolerance. Not proved: the extractors and interpreters themselves (trusted; cross-checked by the exact correspondence with the running constructors), Mesh.Append / Translate / RotateAttribute3D of mesh.go and meshops (corresponded), IEEE rounding (the merge maps are proved exact over the reals and validated numerically on the implementation's floats), hemisphere normals (not in the property; vertex-0 normal is NaN).",
         technique="Lean 4 proof for all parameters (List.range/flatMap combinatorics + omega; Mathlib trigonometry over the reals) + regenerated cube tables + exact index correspondence and oracle evaluation on the implementation's meshes"),
 )
